@@ -32,7 +32,7 @@ def _judge(a, out):
             ok = False
         if act in ("start", "enter") and res != "ok" and (held != prev_held or run != prev_run):
             ok = False
-        if act in ("stop", "leave") and (run != "0" or "1" in held or res != "ok"):
+        if (act in ("stop", "leave") or act.startswith("sstop:")) and (run != "0" or "1" in held or res != "ok"):
             ok = False
         if act.startswith("send:"):
             i = int(act[5:])
@@ -86,6 +86,10 @@ def streams(ctx):
     ctx.run_cases(LIFE, "fixed-scenarios", FIXED, exhaustive=True)
     ctx.run_cases(LIFE, "a-configured-port-that-cannot-be-bound", [{"ports": 3, "acts": ["bad:2", "start", "send:0", "send:1", "stop", "start", "send:0"]}]
                   + [gen_bad(rng) for _ in range(ctx.n(25, 400))], exhaustive=False, sample_every=9)
+    # stop() called while a broadcast is on its way, 0..7 loop turns after it was sent, on one and on several ports
+    races = [{"ports": n, "acts": ["start", f"sstop:{i}:{k}", f"send:{i}", "start", f"sstop:{(i + 1) % n}:{(k + 3) % 8}"]}
+             for n in (1, 3) for i in range(n) for k in range(8)]
+    ctx.run_cases(LIFE, "stop-while-a-broadcast-is-on-its-way", races if not ctx.quick else races[::1], exhaustive=True, sample_every=11)
     ctx.run_cases(LIFE, "random-action-sequences", [gen(rng) for _ in range(ctx.n(110, 2500))], exhaustive=False, sample_every=50)
 
 
